@@ -109,7 +109,8 @@ def _span_balance(cx, fn, push, pop):
             elif c.short == pop:
                 count = count - 1 if count != "T" else "T"
             elif c.is_("Vec::len") and _is_span_stack(cx, fn, c):
-                saved = saved + ((c.dest[0], count),)
+                # one entry per destination local (a len() inside a loop is re-read every iteration), bounded in size
+                saved = tuple(x for x in saved if x[0] != c.dest[0])[-7:] + ((c.dest[0], count),)
             elif c.is_("Vec::truncate") and _is_span_stack(cx, fn, c):
                 l = op_local(c.args[1]) if len(c.args) > 1 else None
                 hit = None
@@ -143,7 +144,60 @@ def _span_balance(cx, fn, push, pop):
             elif not any(b[0] == "exit" and b[3] == count for b in bad):
                 bad.append(("exit", bb, pathf(), count))
 
-    n = ex.run((0, (), None), transfer, at_exit)
+    # `while self.span_stack.len() > saved { self.pop_span() }` is truncate-to-saved spelled as a loop: on the outcome of the
+    # comparison on which the current length no longer exceeds the saved one, the depth is the saved depth
+    restore_edges = {}
+    for b in fn.blocks:
+        if b.cleanup or b.term[0] != "switch":
+            continue
+        cl = op_base(b.term[1])
+        d = du.single_def(cl) if cl is not None else None
+        if d is None or d[2] != "assign" or d[3][0] != "bin" or d[3][1] not in ("Gt", "Lt", "Ge", "Le", "Ne", "Eq"):
+            continue
+        opn, a, b2 = d[3][1], d[3][2], d[3][3]
+        ra = du.root(op_base(a)) if op_base(a) is not None else None
+        rb = du.root(op_base(b2)) if op_base(b2) is not None else None
+
+        def is_cur_len(rr):
+            return rr is not None and rr[0] == "call" and rr[1].is_("Vec::len") and _is_span_stack(cx, fn, rr[1]) and \
+                rr[1].bb == b.idx or (rr is not None and rr[0] == "call" and rr[1].is_("Vec::len")
+                                      and _is_span_stack(cx, fn, rr[1]) and cx.cfg(fn).dominates(rr[1].bb, b.idx)
+                                      and any(p == rr[1].bb or rr[1].target == b.idx for p in cx.cfg(fn).pred[b.idx]))
+        cur_is_a = is_cur_len(ra)
+        cur_is_b = is_cur_len(rb)
+        if cur_is_a == cur_is_b:
+            continue
+        other = rb if cur_is_a else ra
+        if other is None or other[0] != "call" or not other[1].is_("Vec::len") or not _is_span_stack(cx, fn, other[1]):
+            continue
+        saved_local = other[1].dest[0]
+        # outcomes on which cur <= saved (with cur >= saved as the loop invariant: cur == saved)
+        if cur_is_a:
+            le_true = {"Gt": False, "Le": True, "Ne": False, "Eq": True}.get(opn)
+        else:
+            le_true = {"Lt": False, "Ge": True, "Ne": False, "Eq": True}.get(opn)
+        if le_true is None:
+            continue
+        tg = set()
+        for v, tb in b.term[2]:
+            if (v != 0) == le_true:
+                tg.add(tb)
+        listed = {v for v, _ in b.term[2]}
+        if (listed == {0} and le_true) or (listed == {1} and not le_true):
+            tg.add(b.term[3])
+        if tg:
+            restore_edges[b.idx] = (saved_local, tg)
+
+    def on_edge(bb, succ, st):
+        re_ = restore_edges.get(bb)
+        if re_ is not None and succ in re_[1]:
+            count, saved, rcls = st
+            for sl, sc in saved:
+                if sl == re_[0]:
+                    return (sc, saved, rcls)
+        return st
+
+    n = ex.run((0, (), None), transfer, at_exit, on_edge=on_edge)
     if ex.truncated:
         undecided.append("state space truncated")
     # de-duplicate loop reports
